@@ -2469,6 +2469,9 @@ evdns_server_request_format_response(struct server_request *req, int err)
 	unsigned char buf[1024 * 64];
 	size_t buf_len = sizeof(buf);
 	off_t j = 0, r;
+	off_t last_good = 0; /* end of the last record that fits completely */
+	int counts[3] = { 0, 0, 0 }; /* records written, per section */
+	int truncated = 0;
 	u16 t_;
 	u32 t32_;
 	int i;
@@ -2501,6 +2504,8 @@ evdns_server_request_format_response(struct server_request *req, int err)
 		APPEND16(req->base.questions[i]->type);
 		APPEND16(req->base.questions[i]->dns_question_class);
 	}
+
+	last_good = j;
 
 	/* Add answer, authority, and additional sections. */
 	for (i=0; i<3; ++i) {
@@ -2541,14 +2546,29 @@ evdns_server_request_format_response(struct server_request *req, int err)
 					EVUTIL_ASSERT(item->datalen == 0);
 				}
 			}
+			if (j > req->max_udp_reply_size && !req->client)
+				goto overflow;
+			last_good = j;
+			++counts[i];
 			item = item->next;
 		}
 	}
 
-	if (j > req->max_udp_reply_size && !req->client) {
+	if (0) {
 overflow:
-		j = req->max_udp_reply_size;
+		/* The record that does not fit (into the client's UDP size, or
+		 * into any message at all) and everything after it are left
+		 * out: a truncated message consists of whole records, and its
+		 * header says how many there are. */
+		truncated = 1;
+	}
+	if (truncated) {
+		j = last_good;
 		buf[2] |= 0x02; /* set the truncated bit. */
+		for (i = 0; i < 3; ++i) {
+			t_ = htons((u16)counts[i]);
+			memcpy(buf + 6 + 2*i, &t_, 2);
+		}
 	}
 
 	req->response_len = j;
